@@ -598,6 +598,17 @@ func augName(c *Ctx, a *flAgg) {
 				guarded = true
 			}
 		}
+		// ... or the check was moved into getFuncAST: every declaration it hands
+		// out matched the name it was given, and it is given the frame's Func.Name
+		if !guarded {
+			for _, ev := range p.Events {
+				if ev.Kind == EvCall && ev.Val.Op == OpCall && ev.Val.Fn != nil && ev.Val.Fn.Name() == "getFuncAST" && len(ev.Val.Args) > 2 {
+					if strings.HasSuffix(ev.Val.Args[2].String(), ".Func.Name") && augCalleeGuards(ev.Val.Fn) {
+						guarded = true
+					}
+				}
+			}
+		}
 		// the declaration passed is the one found for this call's line
 		okArgs := len(call.Args) == 3 && strings.Contains(call.Args[2].String(), "getFuncAST(") && strings.HasSuffix(call.Args[2].String(), "#0")
 		// no argument-less frame is augmented
@@ -790,4 +801,35 @@ func isPopStore(ev Event) bool {
 	}
 	ad, _ := stripAddr(ev.Addr.String())
 	return ad == ev.Val.Args[0].String()
+}
+
+// augCalleeGuards: every path of getFuncAST that returns a declaration has
+// found declMatches(<its name parameter>, <that declaration>.Name.Name) true.
+func augCalleeGuards(fn *ssa.Function) bool {
+	if fn == nil || len(fn.Params) < 2 {
+		return false
+	}
+	name := fn.Params[1].Name()
+	x := &SPE{Fn: fn, MaxVisits: 2}
+	x.Explore()
+	n := 0
+	for _, p := range x.Paths {
+		if p.Term != "return" || len(p.Results) < 1 || p.Results[0].isNilConst() {
+			continue
+		}
+		if isNil, have := p.lit("(" + p.Results[0].String() + " == nil)"); have && isNil {
+			continue
+		}
+		n++
+		ok := false
+		for _, lt := range p.Lits {
+			if at := lt.Atom; lt.Pol && at.calleeIs(stackPkg, "declMatches") && len(at.Args) == 3 && at.Args[1].String() == name && at.Args[2].String() == p.Results[0].String()+".Name.Name" {
+				ok = true
+			}
+		}
+		if !ok {
+			return false
+		}
+	}
+	return n > 0
 }
